@@ -10,12 +10,13 @@
                     order-equivalent comparisons of squared magnitudes and cross-multiplied cosines
   * `basisABC`, `orderRows`, `freeSurfaceBasis`   the whole routine, 3- and 4-index I/O
   * `layerCoords`, `shifts`                        FreeSurface.__init__ (unique layers, mid-layer shifts)
-  * `surfaceBox`, `surfacePbc`, `cutMult`          FreeSurface.surface (multiplier, pbc, vacuum)
+  * `surfaceAtoms`, `vacuumBox`, `surfacePbc`, `cutMult`   FreeSurface.surface (supersize+shift+wrap, multiplier, pbc, vacuum)
   * `faultPos`, `pushAmount`                       StackingFault.fault
   `isclose(x, 0)` is modelled as `x = 0`.
 -/
 import Atomman.Prelude
 import Atomman.Box
+import Atomman.C04
 
 namespace Atomman.C14
 open Atomman
@@ -408,6 +409,18 @@ def wrapPos (box : Box K) (pbc : V3 Bool) (fl : K → Int) (p : V3 K) : V3 K :=
   let s := box.cartToRel p
   let n := imageFlags box pbc fl p
   box.relToCart (s - toK n)
+
+/-- one atom of `FreeSurface.surface()` after `supersize`: `pos += shift`, then `wrap()` while all three
+    directions are still periodic (pbc is switched off across the cut only afterwards). -/
+def surfacePos (box : Box K) (fl : K → Int) (shift p : V3 K) : V3 K :=
+  wrapPos box ⟨true, true, true⟩ fl (p + shift)
+
+/-- `FreeSurface.surface()` up to the pbc / vacuum step: `rcell.supersize(*sizemults)` (C04's model),
+    `pos += shift`, `wrap()`; a fully periodic `wrap` leaves the box as it is. -/
+def surfaceAtoms (rbox : Box K) (sa sb sc : C04.Size) (fl : K → Int) (shift : V3 K)
+    (atoms : List (C04.Atom K)) : Box K × List (C04.Atom K) :=
+  let sbox := C04.superBox rbox sa sb sc
+  (sbox, (C04.supersizeAtoms rbox sa sb sc atoms).map fun a => { a with pos := surfacePos sbox fl shift a.pos })
 
 /-- one atom of `fault()`: shift if above, then wrap. -/
 def faultPos (box : Box K) (pbc : V3 Bool) (fl : K → Int) (cut : Cut) (fp : K) (shift : V3 K)
